@@ -40,7 +40,17 @@ func main() {
 			fmt.Println("LOAD ERROR", err)
 			os.Exit(2)
 		}
-		b, _ := json.MarshalIndent(p.Anchors(), "", " ")
+		tab := p.Anchors()
+		ctx := &Ctx{P: p, W: NewWalker(p), Tier: "quick", R: NewReport("ANCHORS", "quick"), exps: map[string]*Exploration{}}
+		os.Setenv("VERIF_DIR", "/nonexistent") // fingerprints of the tree as it is, not resolved through an older table
+		if ep, err := ctx.ServerRuntime(); err == nil {
+			for k, v := range ep.Fingerprints() {
+				tab[k] = v
+			}
+		} else {
+			fmt.Fprintln(os.Stderr, "server runtime:", err)
+		}
+		b, _ := json.MarshalIndent(tab, "", " ")
 		fmt.Println(string(b))
 		return
 	}
